@@ -107,7 +107,10 @@ const negWait = 600 * time.Millisecond
 const posWait = 10 * time.Second
 
 // tlsExporterVsCollector: real exporter and real collector over TLS.
-func tlsExporterVsCollector(srv func(*pki) *certs.Pair, serverName string, clientCA bool, cli func(*pki) *certs.Pair, wantSession, wantDelivery bool, serverNeg bool) func(*hx.Ctx, int, *pki, bool) (string, string) {
+func tlsExporterVsCollector(srv func(*pki) *certs.Pair, serverName string, clientCA bool, cli func(*pki) *certs.Pair, wantSession, wantDelivery bool, serverNeg bool, free ...bool) func(*hx.Ctx, int, *pki, bool) (string, string) {
+	// free: the statement obliges to nothing in this cell (an exporter holding a certificate of its own that is
+	// expired or from another CA, against a collector that asks for none): the session may work or be refused
+	notJudged := len(free) > 0 && free[0]
 	return func(c *hx.Ctx, k int, p *pki, v6 bool) (string, string) {
 		s := srv(p)
 		in := collector.CollectorInput{Address: host(v6), Protocol: "tcp", MaxBufferSize: 65535, IsIPv6: v6, IsEncrypted: true, ServerCert: s.CertPEM, ServerKey: s.KeyPEM}
@@ -127,7 +130,7 @@ func tlsExporterVsCollector(srv func(*pki) *certs.Pair, serverName string, clien
 		}
 		ep, err := exporter.InitExportingProcess(exporter.ExporterInput{CollectorAddress: coll.Addr(), CollectorProtocol: "tcp", ObservationDomainID: domain, TLSClientConfig: tc, IsIPv6: v6})
 		if err != nil {
-			if wantSession {
+			if wantSession && !notJudged {
 				return "positive-cell-failed", "the exporter could not establish a session that must work: " + err.Error()
 			}
 			return "", ""
@@ -143,7 +146,7 @@ func tlsExporterVsCollector(srv func(*pki) *certs.Pair, serverName string, clien
 		}
 		got, _ := coll.Wait(domain, 2, wait)
 		if wantDelivery {
-			if len(got) < 2 {
+			if len(got) < 2 && !notJudged {
 				return "positive-cell-failed", fmt.Sprintf("session established but %d of 2 messages delivered (send error: %v)", len(got), serr)
 			}
 			return "", ""
@@ -504,7 +507,7 @@ func main() {
 			for _, caSet := range []bool{false, true} {
 				wantDelivery := !caSet || ck.ok
 				cells = append(cells, cell{name: fmt.Sprintf("tls client-cert=%s collector-client-ca=%v", ck.name, caSet), v6: v6, neg: !wantDelivery,
-					run: tlsExporterVsCollector(func(p *pki) *certs.Pair { return p.srvTrusted }, "", caSet, ck.f, wantDelivery, wantDelivery, false)})
+					run: tlsExporterVsCollector(func(p *pki) *certs.Pair { return p.srvTrusted }, "", caSet, ck.f, wantDelivery, wantDelivery, false, !caSet && ck.f != nil && !ck.ok)})
 			}
 		}
 		// ServerName given as an IP literal: it must be honoured like a DNS name (crypto/tls never sends an
